@@ -1903,7 +1903,9 @@ func (r stack) defaultAssertionHandler(x any) (str string) {
 			// Handle NOTs a little differently
 			// when nested and when not using
 			// symbol operators ...
-			ik = foldValue(Xs.positive(cfold), ik)
+			// ik is already in the inner stack's own
+			// case (typ folds it on request); folding
+			// it a second time would undo that.
 			str = ik + ` ` + Xs.String()
 		} else {
 			str = Xs.String()
